@@ -397,6 +397,20 @@ func tInteger(t types.Type) bool {
 }
 func tStrings(t types.Type) bool { return isStringSlice(t) }
 
+// argValuesFields: the []string fields of t if t is a struct type of the driver package (passed by value) — the
+// statement's argument values wrapped in a type of their own; nil otherwise.
+func argValuesFields(t types.Type) []*types.Var {
+	n, ok := types.Unalias(t).(*types.Named)
+	if !ok || n.Obj().Pkg() == nil || n.Obj().Pkg().Path() != pkgDriver {
+		return nil
+	}
+	return fieldsWhere(n, func(f *types.Var) bool { return isStringSlice(f.Type()) })
+}
+
+// argValuesType: the type in which a statement's query function receives the rendered argument values: []string, or a
+// struct of the driver package with a []string field.
+func argValuesType(t types.Type) bool { return isStringSlice(t) || len(argValuesFields(t)) > 0 }
+
 // fieldsWhere: the fields of a named struct type that satisfy pred.
 func fieldsWhere(n *types.Named, pred func(*types.Var) bool) []*types.Var {
 	if n == nil {
@@ -1134,8 +1148,10 @@ func (sh *progShape) resolveDriver() {
 	}
 	queryOf := func(role string, T *types.Named) *ssa.Function {
 		ms := methodsOfType(sh.drvFns, T)
+		// (the argument values arrive as a []string or wrapped in a small struct of the driver package that holds them —
+		// `stmtArgs{values []string}` —: argValuesType)
 		takesValues := func(f *ssa.Function) bool {
-			return sigIs(f.Signature, []func(types.Type) bool{tStrings}, []func(types.Type) bool{isRowsType, isErrorType})
+			return sigIs(f.Signature, []func(types.Type) bool{argValuesType}, []func(types.Type) bool{isRowsType, isErrorType})
 		}
 		// (the signature is the definition — the exported Query takes []driver.Value; which of several such methods the
 		// exported Query reaches only breaks a tie, because the call may go through a helper and an interface)
